@@ -199,6 +199,28 @@ def run(ctx):
     r2.check(ok, ctx.construct(he, extra='missing parent => continue'),
              'a missing task/workflow of one action aborts the whole batch',
              ctx.loc(he))
+    # skipping is only harmless while every pass sees ALL expired actions:
+    # once the selection is truncated (an effective LIMIT), the skipped
+    # rows - which stay RUNNING and expired - are selected again and can
+    # fill every batch, and no other lost action is ever expired
+    qf = prog.func(DB + '.get_running_expired_sync_action_executions')
+    eff = False
+    for x in own_nodes(qf.node):
+        if isinstance(x, (ast.Assign, ast.Return)) and x.value is not None \
+                and any(isinstance(y, ast.Call) and
+                        U.call_name(y) in ('limit', 'slice')
+                        for y in ast.walk(x.value)):
+            eff = True
+        if isinstance(x, ast.Return) and isinstance(x.value, ast.Subscript):
+            eff = True
+    skips = [x for lp in ast.walk(he.node) if isinstance(lp, ast.For)
+             for x in ast.walk(lp) if isinstance(x, ast.Continue)]
+    r2.check(not (eff and skips),
+             ctx.construct(he, extra='skipped actions cannot fill the batch'),
+             'the selection of expired actions is truncated (LIMIT) while '
+             'the loop skips some of them without changing them: the same '
+             'rows fill every batch and the actions behind them are never '
+             'expired', ctx.loc(qf))
     # lookups keyed by a nullable column must be guarded by a test that it
     # is set (a stand-alone action has no task: the raising getter would
     # make the checker skip it for ever)
